@@ -148,6 +148,27 @@ Section Import.
       if hit then (root, IFail IE_NOMEM)
       else let '(r, (_, res)) := import_x y (fst (vdelete root dot)) f0 in (r, res)
     end.
+
+  (* The same with a ledger of what is still allocated when the importer returns: the tree reachable from
+     *rootptr and the DETACHED trees nobody points to any more (lost = leaked).  A failed
+     _vnaproperty_yaml_import leaves the part built so far (junk included) in the root pointer it was given;
+     the importers after DO90 release it with _vnaproperty_free_tree(&new_root) before returning -1
+     ([free_on_failure] = true).  false = the same function without that call (seeded change C09-11 did this to
+     vnacal_load's parse_properties): the partial tree is lost.  A NULL partial tree holds no block; on
+     success the old content is released and the new tree installed. *)
+  Record ledger := mkLedger { l_root : node; l_lost : list node }.
+
+  Definition import_public_x_ledger (free_on_failure : bool) (l : xload) (root : node) (f : fault) : ledger * ires :=
+    match l with
+    | XSyntaxError | XEmptyDocument => (mkLedger root [], IFail IE_BADMSG)
+    | XDocument y =>
+      let '(r, (_, res)) := import_x y NNull f in
+      match res with
+      | IOk => (mkLedger r [], IOk)
+      | IFail e =>
+        (mkLedger root (if free_on_failure then [] else match r with NNull => [] | _ => [r] end), IFail e)
+      end
+    end.
 End Import.
 
 (* alias-free documents *)
